@@ -240,6 +240,7 @@ func runC04(w *World, r *Report) {
 	r.Rule("prealloc", "decoders that rely on preallocated receiver slices only ever get receivers built by the constructor", 5)
 	r.Rule("retain", "elements decoded in list loops are stored into the receiver", 8)
 	r.Rule("window", "a bounded window handed to a child decoder is exactly the element's declared length", 10)
+	r.Rule("exhaust", "list-decoding loops run while any element can remain", 10)
 	r.Rule("fresh", "a value decoded into inside a list loop is new in each iteration (or fully overwritten by the child decoder)", 10)
 	codes, err := loadCodes()
 	if err != nil {
@@ -574,6 +575,7 @@ func runC04(w *World, r *Report) {
 			retainRule(w, r, dfi)
 			freshRule(w, r, dfi)
 			windowRule(w, r, dfi)
+			exhaustRule(w, r, dfi)
 		}
 	}
 }
